@@ -1180,6 +1180,9 @@ class Interp:
             self.assume(spec.inv_n(self, env, n_done))
         if mode == 'iter':
             elem = src.fresh_elem(self)
+            if isinstance(src, self.lib.EnumSource):
+                # enumerate(): the index of this element is start + number of elements before it
+                self.assume(src.index == term(src.start, IntS) + n_done)
             self.emit(Ev('Pull', src=src.name, elem=elem, label=label))
             self.assign_target(node.target, elem, env)
             captured = spec.at_start(self, env, elem) if spec.at_start else None
